@@ -586,7 +586,9 @@ def join_case(ctx, B, ml, fa, fb, args, variants, sample=False, prebuilt=None, d
                                       "B is joined in a wrong orientation", tag)
                     ctx.count("join.facing-checked")
         # ---------- geometry: exact spec predicates in Lean on the returned floats ----------
-        B.add(f"spec {nA} {ftoks(ca)} {nB} {ftoks(cbm)} {i1} {i2} {n1} {n2} {ftoks(coords)} {fbits(d)} 1/100000000",
+        # nearly (anti)parallel attachment vectors: the code divides by 1 + c down to 1e-6, rounding is amplified accordingly
+        spec_tol = "1/100000" if args["pose"].startswith("near") else "1/100000000"
+        B.add(f"spec {nA} {ftoks(ca)} {nB} {ftoks(cbm)} {i1} {i2} {n1} {n2} {ftoks(coords)} {fbits(d)} {spec_tol}",
               expect_flags(ctx, "join", tag, SPEC_KINDS))
         # ---------- geometry: the model over exact rationals on the floats the code saw ----------
         v2 = cbm[i2] - cbm[n2]
